@@ -21,7 +21,7 @@ use rustc_hir::def::DefKind;
 use rustc_hir::def_id::{DefId, LocalDefId};
 use rustc_middle::mir::{self, *};
 use rustc_middle::ty::print::{with_crate_prefix, with_no_trimmed_paths};
-use rustc_middle::ty::{self, Ty, TyCtxt};
+use rustc_middle::ty::{self, Ty, TyCtxt, TypeVisitableExt};
 use rustc_span::Span;
 
 struct Cb;
@@ -478,7 +478,21 @@ impl<'tcx> Cx<'tcx> {
                 }
             }
             Const::Ty(_, ct) => {
-                o.push(("tyconst", s(format!("{:?}", ct))));
+                // pattern constants are valtrees: evaluate to a value when possible
+                let env = ty::TypingEnv::post_analysis(tcx, owner);
+                let mut done = false;
+                if !ct.has_non_region_param() {
+                    if let Ok(v) = c.const_.eval(tcx, env, c.span) {
+                        let j = self.const_value(v, ty);
+                        if !matches!(j, J::Null) {
+                            o.push(("val", j));
+                            done = true;
+                        }
+                    }
+                }
+                if !done {
+                    o.push(("tyconst", s(format!("{:?}", ct))));
+                }
             }
         }
         J::Obj(o)
